@@ -423,6 +423,27 @@ class P2SHScriptPubKey(ScriptPubKey):
         return encode_base58_checksum(prefix + self.hash160())
 
 
+def multisig_quorum(commands):
+    """Returns (m, n) if the commands are exactly
+    OP_m <pubkey 1> ... <pubkey n> OP_n OP_CHECKMULTISIG, None otherwise"""
+    if len(commands) < 4 or commands[-1] != 174:
+        return None
+    op_m, op_n = commands[0], commands[-2]
+    # OP_1 is 0x51, OP_16 is 0x60
+    if not (isinstance(op_m, int) and isinstance(op_n, int)):
+        return None
+    if not (0x51 <= op_m <= 0x60 and 0x51 <= op_n <= 0x60):
+        return None
+    pubkeys = commands[1:-2]
+    quorum_m, quorum_n = op_m - 0x50, op_n - 0x50
+    if quorum_n != len(pubkeys) or quorum_m > quorum_n:
+        return None
+    for pubkey in pubkeys:
+        if not isinstance(pubkey, bytes) or len(pubkey) not in (33, 65):
+            return None
+    return quorum_m, quorum_n
+
+
 class RedeemScript(Script):
     """Subclass that represents a RedeemScript for p2sh"""
 
@@ -496,12 +517,10 @@ class RedeemScript(Script):
         """
         Return the m-of-n of this multisig, as in 2-of-3 or 3-of-5
         """
-        if not self.is_p2sh_multisig():
+        quorum = multisig_quorum(self.commands)
+        if quorum is None:
             raise ValueError(f"Not p2sh multisig: {self}")
-        quorum_m = op_code_to_number(self.commands[0])
-        # 3 because quorum_m, OP_CHECKMULTISIG, and bitcoin off-by-one error
-        quorum_n = len(self.commands) - 3
-        return quorum_m, quorum_n
+        return quorum
 
     def signing_pubkeys(self):
         """
@@ -607,13 +626,10 @@ class WitnessScript(Script):
         Return the m-of-n of this multisig, as in 2-of-3 or 3-of-5
         """
 
-        if not self.is_p2wsh_multisig():
+        quorum = multisig_quorum(self.commands)
+        if quorum is None:
             raise ValueError(f"Not a multisig witness script: {self}")
-
-        quorum_m = OP_CODE_NAMES[self.commands[0]].split("OP_")[1]
-        quorum_n = OP_CODE_NAMES[self.commands[-2]].split("OP_")[1]
-
-        return int(quorum_m), int(quorum_n)
+        return quorum
 
 
 def address_to_script_pubkey(s):
